@@ -371,6 +371,13 @@ func (i *interpreter) binop(op token.Token, t types.Type, x, y value) value {
 		}
 		return r
 	}
+	if xf, ok := x.(float64); ok {
+		if yf, ok := y.(float64); ok {
+			if r, handled := i.exactFloatOp(op, xf, yf); handled {
+				return r
+			}
+		}
+	}
 	switch op {
 	case token.QUO, token.REM:
 		switch y.(type) {
